@@ -4,7 +4,8 @@ from harness.props import c01
 
 ID = 'C02'
 MODULE = 'Gpv.Props.C02'
-THEOREMS = core.theorems('C02')
+MODULES = ['Gpv.Props.C02', 'Gpv.Props.C13Stage']
+THEOREMS = core.theorems('C02', 'C13Stage')
 RULE = ('demand histories (take k, pause, take more, stop) over finite and very long sources with None-producing elements; the draw '
         'counter of an instrumented source is read at every hand-over; with all completions withheld (controller process) the '
         'harness waits for quiescence and counts draws and distinct worker pids inside the user function; children of the process '
